@@ -47,7 +47,7 @@ PROPS = {
     "C03": P("P_C03.v", ["C03"], T_EVAL,
         "and/or/not equations over arbitrary leaf semantics: the composite outcome is a function of the operands' outcomes, left to right, with short-circuit; double negation, unreached errors, De Morgan",
         [MODEL_NOTE]),
-    "C04": P("P_C04.v", ["C04"], T_EVAL,
+    "C04": P(["P_C04.v", "P_C04g.v"], ["C04"], T_EVAL + T_PARSER,
         "negated operators are flip_if_ok of the positive ones for every selector, literal, datum and binding stack; the absent-key table is complementary; not(positive) = negative; contains/in build the same tree (grammar actions)",
         [MODEL_NOTE]),
     "C05": P("P_C05.v", ["C05"], T_EVAL,
